@@ -136,6 +136,10 @@ def md_for(kind, axis, n):
             d = {'label': ['val ', ' val', 'v\u3000', 'x \x1f'][i % 4], 'taxonomy': ['k__A ', ' p__B%d' % i]}
         elif kind == 'taxonomy_gap':     # a hierarchical list with an empty level (not in MD_KINDS: C01 excludes it)
             d = {'taxonomy': [['k__A', '', 's__C%d' % i], ['k__A', '', '', 'g__G'], ['k__B', 'p__X', '', 's__%d' % i]][i % 3]}
+        elif kind == 'listgeneric':      # list values under a name that is not one of the reserved hierarchical ones
+            d = {'path': ['a', 'bb', 'c'][:1 + (i % 3)]}        # (not in MD_KINDS: the reader hands these back as arrays)
+        elif kind == 'tuplegeneric':     # the same as tuples, ragged; and a category that mixes both
+            d = {'path': ('a', 'bb', 'c')[:1 + (i % 3)], 'mix': [('u', 'v'), ['w']][i % 2]}
         elif kind == 'collapsed_ids':
             d = {'collapsed_ids': ['m%d' % i, 'n%d' % i][:1 + (i % 2)]}
         elif kind == 'slashkey':
